@@ -49,7 +49,9 @@ func (i dirItem) findDirEntry(item *dirItem, joliet bool) *directoryEntry {
 	identifier := makeIdentifier(item.name, joliet)
 
 	for i := range entries {
-		if entries[i].Identifier == identifier {
+		// identifiers may collide after mapping (i.e. "a" and "A", or file and directory),
+		// so take only directory records that are not linked to another child yet
+		if entries[i].Identifier == identifier && entries[i].FileFlags&dirFlagDir != 0 && entries[i].ExtentLength == 0 {
 			return &entries[i]
 		}
 	}
